@@ -434,6 +434,18 @@ with dp_item (i : item) : nat :=
   end.
 Definition npoints (t : items) : nat := pp_items true t.
 
+(* number of nested components a template's items leave in the post-render queue *)
+Fixpoint nk_items (top : bool) (l : items) : nat :=
+  match l with INil => O | ICons i r => nk_item top i + nk_items top r end
+with nk_item (top : bool) (i : item) : nat :=
+  match i with
+  | IPoint => O
+  | ISlot _ b => nk_items top b
+  | IProvide b => nk_items top b
+  | IDrop _ => O
+  | IComp isroot _ _ _ _ => if isroot || top then O else 1%nat
+  end.
+
 (* ------------------------------------------------------------------------------------------------ *)
 (* S-model: what the property demands of the outcome.  The exception raised by callback invocation k  *)
 (* travels up through the slot markers and component_error_message wrappers standing around that      *)
